@@ -2,8 +2,8 @@
 from .. import bb, chain as K, gen_chain as GC, gen_scripts as G, scriptcheck as S
 
 NAMESPACE = "Rbp.Props.C14"
-REQUIRED = ["evalCustom_total", "tokeniser_total"]
-LEAN_FILES = ["Rbp/Model/Script.lean", "Rbp/Model/ScriptMachine.lean", "Rbp/Proofs/ScriptMachine.lean"]
+REQUIRED = ["evalCustom_total", "tokeniser_total", "evalBtc_total", "bare_multisig_safe"]
+LEAN_FILES = ["Rbp/Model/Script.lean", "Rbp/Model/ScriptMachine.lean", "Rbp/Proofs/ScriptMachine.lean", "Rbp/Model/ScriptMachineBtc.lean", "Rbp/Proofs/ScriptMachineBtc.lean"]
 RULE = ("panic behaviour of the real script evaluation (catch_unwind per request, dev profile = overflow checks on) on all 8 version bytes: boundary + bulk families of C05/C06 "
         "plus stress families (1..5000 pushes, 1 KB..100 KB scripts, PUSHDATA4 with lengths up to 2^32-1, invalid UTF-8 after OP_RETURN); the model is total, so any PANIC answer is a violation; "
         "non-trivial = non-empty script typed other than NotRecognised by the model or a mutation; distinct (version, script) pairs")
